@@ -149,7 +149,19 @@ class SgBackend(Backend):
         store = remove_tilde(store)
 
         if (axis_names is None) and (metadata is not None) and (metadata.axes is not None):
+            # The axes come from the metadata: keep their type, unit, scale, scaled unit
+            # and offset unless the corresponding axis_* list overrides them
             axis_names = [axis.name for axis in metadata.axes]
+            if axis_units is None:
+                axis_units = [axis.unit for axis in metadata.axes]
+            if axis_types is None:
+                axis_types = [axis.type for axis in metadata.axes]
+            if axis_scales is None:
+                axis_scales = [axis.scale for axis in metadata.axes]
+            if scaled_units is None:
+                scaled_units = [axis.scaled_unit for axis in metadata.axes]
+            if axis_offset is None:
+                axis_offset = [axis.offset for axis in metadata.axes]
         elif axis_names is not None:
             pass
         else:
